@@ -601,7 +601,6 @@ func classKey(cl ccClass, ignore, force bool) string {
 	return fmt.Sprintf("cc[%s]/exp=%s/ignore=%v/force=%v", strings.Join(kinds, sep), cl.expKind, ignore, force)
 }
 
-
 func runMethodStatusCase(c *vrun.Ctx, env *penv, ignore, force bool, method string, status int) {
 	uri := env.uniq("m")
 	name := "m" + strconv.Itoa(env.seq)
